@@ -81,7 +81,11 @@ def wrap_loops(prog, scope, an, floor=20, strict_fns=()):
                     if fn.q not in strict_fns:
                         continue
                     es = strip(e, casts=True)
-                    if not ((es['k'] == 'DeclRefExpr' and es.get('dk') == 'param') or (es['k'] == 'MemberExpr' and es.get('n') == 'high_address')):
+                    outp = es['k'] == 'DeclRefExpr' and es.get('dk') == 'local' and any(
+                        x['k'] == 'UnaryOperator' and x.get('op') == '&' and strip(kids(x)[0]).get('d') == es.get('d')
+                        for x in fn.nodes.values())          # filled by get_range(token, &start, &end)
+                    if not ((es['k'] == 'DeclRefExpr' and es.get('dk') == 'param') or outp or
+                            (es['k'] == 'MemberExpr' and es.get('n') == 'high_address')):
                         continue
                 k += 1
                 if wide:
@@ -105,6 +109,13 @@ def wrap_loops(prog, scope, an, floor=20, strict_fns=()):
                                 strip(kids(o2)[0], casts=True).get('d') == av.get('d') and \
                                 any(s_ is not None and s_ not in body for s_ in fn.blocks[b2]['s']):
                             ok = True
+                        # `if (end - a <= step) break;` before the advance: the last element is recognised without passing it
+                        if o2['k'] == 'BinaryOperator' and o2.get('op') in ('<=', '<') and const(kids(o2)[1]) is not None and \
+                                any(s_ is not None and s_ not in body for s_ in fn.blocks[b2]['s']):
+                            d2 = strip(kids(o2)[0], casts=True)
+                            if d2['k'] == 'BinaryOperator' and d2.get('op') == '-' and show(kids(d2)[0]) == show(e) and \
+                                    strip(kids(d2)[1], casts=True).get('d') == av.get('d') and const(kids(o2)[1]) >= 1:
+                                ok = True
                 if not ok and (fn.file, fn.q) in ACCEPTED:
                     obs.append(Ob('WRAP-LOOP', fn.file, own['l'], fn.q, 'loop:%s%s%s#%d' % (av.get('n'), own['op'], show(e)[:24], k),
                                   OBSERVATION, 'matches the wrap pattern; accepted: ' + ACCEPTED[(fn.file, fn.q)]))
